@@ -153,7 +153,29 @@ func init() {
 			return true
 		})
 		fmt.Fprintf(&b, "(* true when the error result of regexp.Compile is assigned to _ (nil *Regexp is then dereferenced) *)\n")
-		fmt.Fprintf(&b, "Definition gen_image_compile_error_ignored : bool := %s.\n\n", coqBool(errIgnored))
+		fmt.Fprintf(&b, "Definition gen_image_compile_error_ignored : bool := %s.\n", coqBool(errIgnored))
+		// `if err != nil { return false }` directly after the Compile call
+		returnsFalse := false
+		for _, st := range fd.Body.List {
+			is, ok := st.(*ast.IfStmt)
+			if !ok || is.Init != nil || is.Else != nil || len(is.Body.List) != 1 {
+				continue
+			}
+			be, ok := is.Cond.(*ast.BinaryExpr)
+			if !ok || be.Op != token.NEQ {
+				continue
+			}
+			x, okx := be.X.(*ast.Ident)
+			y, oky := be.Y.(*ast.Ident)
+			rs, okr := is.Body.List[0].(*ast.ReturnStmt)
+			if okx && oky && okr && x.Name == "err" && y.Name == "nil" && len(rs.Results) == 1 {
+				if id, ok := rs.Results[0].(*ast.Ident); ok && id.Name == "false" {
+					returnsFalse = true
+				}
+			}
+		}
+		fmt.Fprintf(&b, "(* true when a compile error makes IsImageMatched return false (`if err != nil { return false }`) *)\n")
+		fmt.Fprintf(&b, "Definition gen_image_compile_error_returns_false : bool := %s.\n\n", coqBool(returnsFalse))
 
 		// ---- types.anchorRegex
 		_, f, err = c10ParseFile(filepath.Join(repo, "api/types/selector.go"))
